@@ -11,7 +11,13 @@ RULE = ("one DefaultApplicationConfig application run on every sequence of 2 (qu
         "kinds per tree (valid, with arguments, unknown command, help <cmd>, <cmd> -h, help <cmd> --num=abc, <cmd> --num=abc -h (the help resolver's lenient re-parse raises), version, unknown "
         "option, too many arguments, handler raising), random sequences of 4-6, each run compared with a freshly built application; "
         "all orders of constructing the predefined table styles (+ customisations) then rendering one table with each; every "
-        "component rendered twice; non-trivial = runs of different kinds in one history; distinct by (tree, lines)")
+        "component rendered twice; non-trivial = runs of different kinds in one history; distinct by (tree, lines). Trees with DUPLICATE "
+        "sibling names (Command.add_sub_command keeps both, the collections resolve the last): grp{x strict, x lenient} in both orders, "
+        "three x, an anonymous default x beside a named x, two default x, aliases, a third level, a disabled top-level twin, random "
+        "trees with one sub-command doubled (leniency flipped); per tree the history 'p extra; help p; p extra; p --help; p extra' for "
+        "every doubled path p, all sequences of 2 / 3 lines of the pool of those paths, random histories; every handler is tagged with "
+        "the position of its configuration (which sibling ran is observed), the effective leniency of every configuration after the "
+        "history is compared with a fresh application; an enabled top-level twin is refused by both sides")
 THEOREMS = ["runs_independent", "leniency_restored", "styles_independent"]
 TRUSTED = ["'rendering twice gives identical output' is trivially true of a functional model: carried by the correspondence run (testing)"]
 ASSUMPTIONS = []
@@ -49,6 +55,148 @@ def line_pool(t, rng):
     return out
 
 
+# ---------------------------------------------------------------- duplicate sibling names
+def _x(lenient, desc, **kw):
+    return T.cmd("x", lenient=lenient, desc=desc, **kw)
+
+
+def _grp(subs, **kw):
+    return T.cmd("grp", subs=subs, desc="a group", **kw)
+
+
+def _dtree(cmds):
+    return {"opts": list(C09.GLOBAL_OPTS), "args": [], "cmds": [C09.HELP_CMD] + cmds}
+
+
+def fixed_dup_trees():
+    """(tree, paths the histories address); the tree of the model's Example runs_independent_duplicate_subcommands first"""
+    out = []
+    out.append((_dtree([_grp([_x(False, "strict x"), _x(True, "lenient x")])]), [["grp", "x"]]))
+    out.append((_dtree([_grp([_x(True, "lenient x"), _x(False, "strict x")])]), [["grp", "x"]]))
+    out.append((_dtree([_grp([_x(False, "strict x 1"), _x(True, "lenient x 2"), _x(False, "strict x 3")])]), [["grp", "x"]]))
+    # one name path, two command objects: "help grp" reaches the anonymous default x, "help grp x" the named one
+    out.append((_dtree([_grp([_x(False, "anonymous default strict x", anonymous=True), _x(True, "named lenient x")])]),
+                [["grp"], ["grp", "x"]]))
+    out.append((_dtree([_grp([_x(True, "named lenient x"), _x(False, "anonymous default strict x", anonymous=True)])]),
+                [["grp"], ["grp", "x"]]))
+    # two default sub-commands of one name: the default collection holds the last
+    out.append((_dtree([_grp([_x(True, "default lenient x", default=True), _x(False, "default strict x", default=True)])]),
+                [["grp"], ["grp", "x"]]))
+    out.append((_dtree([_grp([_x(False, "default strict x", default=True), _x(True, "plain lenient x")])]),
+                [["grp"], ["grp", "x"]]))
+    # the alias of the first sibling leads to the name, the name to the last sibling
+    out.append((_dtree([_grp([_x(False, "strict x alias y", aliases=["y"]), _x(True, "lenient x", args=[G.arg("b2", G.A_OPT, "dv")])])]),
+                [["grp", "x"], ["grp", "y"]]))
+    # a third level: grp x resolves to the second x, its y to the last y there
+    out.append((_dtree([_grp([_x(False, "x 1", subs=[T.cmd("y", lenient=False, desc="y 1.1"), T.cmd("y", lenient=True, desc="y 1.2")]),
+                              _x(True, "x 2", subs=[T.cmd("y", lenient=True, desc="y 2.1"), T.cmd("y", lenient=False, desc="y 2.2")])])]),
+                [["grp", "x", "y"], ["grp", "x"]]))
+    # top level: a twin is accepted only when it is disabled
+    out.append((_dtree([_grp([_x(True, "x of the disabled twin")], enabled=False),
+                        _grp([_x(False, "strict x"), _x(True, "lenient x")])]), [["grp", "x"]]))
+    out.append((_dtree([_grp([_x(False, "strict x"), _x(True, "lenient x")]),
+                        _grp([_x(True, "x of the disabled twin")], enabled=False)]), [["grp", "x"]]))
+    return out
+
+
+def random_dup_tree(rng):
+    """a seeded tree in which one enabled named sub-command is doubled: same name, leniency flipped, at the front or at the end"""
+    for _ in range(200):
+        t = C09.default_tree(rng, 2)
+        cands = []
+        for ci, c in enumerate(t["cmds"]):
+            if ci == 0 or not c["enabled"] or c["anonymous"]:
+                continue
+            for s_ in c["subs"]:
+                if s_["enabled"] and not s_["anonymous"]:
+                    cands.append((c, s_))
+        if not cands:
+            continue
+        c, s_ = rng.choice(cands)
+        twin = json.loads(json.dumps(s_))
+        twin["lenient"] = not s_["lenient"]
+        twin["desc"] = "the twin"
+        if rng.random() < 0.3:
+            twin["default"] = not s_["default"]
+        if rng.random() < 0.3:
+            twin["aliases"] = []
+        subs = list(c["subs"])
+        if rng.random() < 0.5:
+            subs.append(twin)
+        else:
+            subs.insert(0, twin)
+        c["subs"] = subs
+        return t, [[c["name"], s_["name"]], [c["name"]]]
+    raise RuntimeError("no tree with a sub-command")
+
+
+def resolve_sibling(cmds, n):
+    """what a named collection built from these siblings returns for the token n (CommandCollection.get: the name index, then
+    the alias index -> name -> the command filed under that name): the LAST enabled named sibling of the name"""
+    named = [c for c in cmds if c["enabled"] and not c["anonymous"]]
+    byname = [c for c in named if c["name"] == n]
+    if byname:
+        return byname[-1]
+    owners = [c for c in named if n in c["aliases"]]
+    if not owners:
+        return None
+    return [c for c in named if c["name"] == owners[-1]["name"]][-1]
+
+
+def resolved_args(t, p):
+    """the arguments (inherited + own) of the command the named collections resolve along p"""
+    cmds, args = t["cmds"], []
+    for n in p:
+        hit = resolve_sibling(cmds, n)
+        if hit is None:
+            return args
+        args = args + hit["args"]
+        cmds = hit["subs"]
+    return args
+
+
+def dup_pool(t, focus):
+    lines = [[]]
+    for p in focus[:2]:
+        vals = ["x"] * sum(1 for a in resolved_args(t, p) if a["flags"] & G.A_REQ)
+        lines += [p + vals + ["extra"], ["help"] + p, p + vals + ["--help"], p + vals, ["help"] + p + ["--num=abc"],
+                  p + vals + ["--num=abc", "-h"]]
+    out, seen = [], set()
+    for l in lines:
+        if tuple(l) not in seen:
+            seen.add(tuple(l))
+            out.append(l)
+    return out
+
+
+def dup_history(t, p):
+    vals = ["x"] * sum(1 for a in resolved_args(t, p) if a["flags"] & G.A_REQ)
+    e = p + vals + ["extra"]
+    return [e, ["help"] + p, e, p + vals + ["--help"], e]
+
+
+def gen_dups(rng, tier):
+    cases = []
+    trees = [(ensure_num(json.loads(json.dumps(t))), f) for t, f in fixed_dup_trees()]
+    for _ in range({"quick": 4, "thorough": 16, "search": 2}[tier]):
+        t, f = random_dup_tree(rng)
+        trees.append((ensure_num(t), f))
+    depth = {"quick": 2, "thorough": 3, "search": 2}[tier]
+    for t, focus in trees:
+        for p in focus:
+            cases.append({"k": 0, "tree": t, "lines": dup_history(t, p), "dup": 1})
+        pool = dup_pool(t, focus)[:10]
+        for k in range(2, depth + 1):
+            for seq in itertools.product(range(len(pool)), repeat=k):
+                cases.append({"k": 0, "tree": t, "lines": [pool[i] for i in seq], "dup": 1})
+        for _ in range({"quick": 30, "thorough": 200, "search": 10}[tier]):
+            cases.append({"k": 0, "tree": t, "lines": [rng.choice(pool) for _ in range(rng.randint(4, 6))], "dup": 1})
+    # an ENABLED top-level twin: the application cannot be built (CannotAddCommandException), on both sides
+    bad = _dtree([_grp([_x(False, "strict x")]), _grp([_x(True, "lenient x")])])
+    cases.append({"k": 0, "tree": bad, "lines": [["grp", "x"]], "dup": 1})
+    return cases, len(trees)
+
+
 STYLE_OPS = ["borderless", "compact", "ascii", "solid"]
 
 
@@ -64,6 +212,8 @@ def gen(rng, tier, info):
                 cases.append({"k": 0, "tree": t, "lines": [pool[i] for i in seq]})
         for _ in range({"quick": 100, "thorough": 600, "search": 30}[tier]):
             cases.append({"k": 0, "tree": t, "lines": [rng.choice(pool) for _ in range(rng.randint(4, 6))]})
+    dups, n_dup_trees = gen_dups(rng, tier)
+    cases.extend(dups)
     n_runs = len(cases)
     for perm in itertools.permutations(range(4)):
         for custom in (None, 0, 2):
@@ -71,7 +221,8 @@ def gen(rng, tier, info):
     for comp in ("table", "apphelp", "cmdhelp", "paragraph", "labeled", "nameversion", "progress", "trace"):
         cases.append({"k": 2, "comp": comp})
     info["exhaustive"] = True
-    info["distribution"] = {"trees": ntrees, "run_histories": n_runs, "style_orders": 72, "components": 8}
+    info["distribution"] = {"trees": ntrees, "trees_with_duplicate_sibling_names": n_dup_trees, "histories_on_them": len(dups),
+                            "run_histories": n_runs, "style_orders": 72, "components": 8}
     return cases
 
 
@@ -105,29 +256,134 @@ def _render_table(style):
     return io.fetch_output()
 
 
+def _configs(config):
+    """every command configuration of the application except the built-in help command, with its position among ALL the
+    configurations given (disabled ones count), depth first"""
+    out = []
+
+    def go(cc, pos):
+        out.append((pos, cc))
+        for i, sc in enumerate(cc.sub_command_configs):
+            go(sc, pos + [i])
+    for i, cc in enumerate([x for x in config.command_configs if x.name != "help"]):
+        go(cc, [i])
+    return out
+
+
+class _Tagged(object):
+    """the handler of one configuration, telling which configuration it belongs to"""
+
+    def __init__(self, inner, tag, rec):
+        self.inner, self.tag, self.rec = inner, tag, rec
+
+    def handle(self, args, io, command):
+        self.rec["tag"] = self.tag
+        return self.inner.handle(args, io, command)
+
+
+def _fresh(tree):
+    key = json.dumps(tree, sort_keys=True)
+    C09._APPS.pop(key, None)
+    app, config, rec = C09._mk(tree)
+    for pos, cc in _configs(config):
+        cc.set_handler(_Tagged(cc.handler, ".".join(map(str, pos)), rec))
+    return app, config, rec
+
+
+def _leniency(config):
+    return [[".".join(map(str, pos)), bool(cc.is_lenient_args_parsing_enabled())] for pos, cc in _configs(config)]
+
+
+def _touched(config):
+    return [".".join(map(str, pos)) for pos, cc in _configs(config) if cc._lenient_args_parsing is not None]
+
+
+def _expected_tags(tree, path):
+    """positions (among all configurations given) a handler run reported under the name path may belong to: down the path the
+    last enabled named sibling of each name; the last step may also be the last enabled DEFAULT sibling of that name"""
+    if path is None:
+        return None
+    cmds = [c for c in tree["cmds"] if c["name"] != "help"]
+    pos = []
+    for k, n in enumerate(path):
+        idx = [i for i, c in enumerate(cmds) if c["enabled"] and not c["anonymous"] and c["name"] == n]
+        if k == len(path) - 1:
+            dflt = [i for i, c in enumerate(cmds) if c["enabled"] and c["default"] and c["name"] == n]
+            return [".".join(map(str, pos + [i[-1]])) for i in (idx, dflt) if i]
+        if not idx:
+            return []
+        pos.append(idx[-1])
+        cmds = cmds[idx[-1]]["subs"]
+    return []
+
+
+def _classify_shadowed(tree, toks, action):
+    """C09's classifier knows the help pages of the commands the sub-command collections list (one per name); a page of a
+    command that is only reachable as a default sub-command (an anonymous x beside a named x) is looked up here"""
+    from clikit.io import BufferedIO
+    from clikit.ui.help import CommandHelp
+    app, config, rec = C09._mk(tree)
+    text = C09._SGR.sub("", C09._run(tree, toks, True)["out"])
+    seen, hits = set(), []
+
+    def go(cmd):
+        if id(cmd) in seen:
+            return
+        seen.add(id(cmd))
+        io = BufferedIO()
+        CommandHelp(cmd).render(io)
+        if io.fetch_output() == text:
+            hits.append(cmd.full_name.split(" "))
+        for coll in (cmd.sub_commands, cmd.named_sub_commands, cmd.default_sub_commands):
+            for s_ in coll:
+                go(s_)
+    for coll in (app.commands, app.named_commands, app.default_commands):
+        for cmd in coll:
+            go(cmd)
+    if hits:
+        return [1, [S(p) for p in hits[0]]]
+    return action
+
+
 def run_impl(c):
     import os
     os.environ["COLUMNS"] = "80"
     if c["k"] == 0:
         tree = c["tree"]
-        C09._APPS.pop(json.dumps(tree, sort_keys=True), None)
+        try:
+            app, config, rec = _fresh(tree)
+        except (Exception, SystemExit) as e:
+            # the configuration is refused (a second enabled top-level command of one name): nothing to run.  With
+            # catch_exceptions on, ConsoleApplication.__init__ reports and exits; the exception itself is seen with it off
+            if isinstance(e, SystemExit):
+                try:
+                    T.mk_app({"opts": [], "args": [], "cmds": [x for x in tree["cmds"] if x["name"] != "help"]})
+                except Exception as e2:
+                    e = e2
+            return [[-3, exc_code(e)], [], [], None]
+        len0 = _leniency(config)
         reused = []
-        actions = []
         for l in c["lines"]:
             r = C09._run(tree, l, True)
-            reused.append(_obs(r))
+            reused.append(_obs(r) + [rec.get("tag")])
+        len1 = _leniency(config)
+        touched = _touched(config)
         fresh = []
         for l in c["lines"]:
-            C09._APPS.pop(json.dumps(tree, sort_keys=True), None)
-            fresh.append(_obs(C09._run(tree, l, True)))
+            app2, config2, rec2 = _fresh(tree)
+            fresh.append(_obs(C09._run(tree, l, True)) + [rec2.get("tag")])
         # classification of each run for the comparison with the model: through C09's classifier on a fresh application
         cls = []
         for l in c["lines"]:
             C09._APPS.pop(json.dumps(tree, sort_keys=True), None)
             C09._PAGES.pop(json.dumps(tree, sort_keys=True), None)
             o = C09.run_impl({"tree": tree, "toks": l, "k": -1})
-            cls.append(C09.canon_impl(None, o)[1:])
-        return [[0, cls], reused, fresh]
+            a = C09.canon_impl(None, o)[1:]
+            if a[1][0] == 9:
+                a = [a[0], _classify_shadowed(tree, l, a[1])]
+            cls.append(a)
+        return [[0, cls], reused, fresh, {"len0": len0, "len1": len1, "touched": touched,
+                                          "expected_tags": [_expected_tags(tree, x[3]) for x in reused]}]
     if c["k"] == 1:
         from clikit.ui.style import TableStyle
         makers = {"borderless": TableStyle.borderless, "compact": TableStyle.compact, "ascii": TableStyle.ascii, "solid": TableStyle.solid}
@@ -229,9 +485,16 @@ def oracle(c, o):
         reused, fresh = o[1], o[2]
         for i, (a, b) in enumerate(zip(reused, fresh)):
             if a != b:
-                names = ["status", "stdout", "stderr", "handler", "settings-seen", "answer", "escaped-exception"]
+                names = ["status", "stdout", "stderr", "handler", "settings-seen", "answer", "escaped-exception", "which-sibling-ran"]
                 which = [n for n, x, y in zip(names, a, b) if x != y]
                 return "run-%d-differs-from-fresh-application:%s" % (i + 1, ",".join(which))
+        st = o[3]
+        if st is not None:
+            if st["len0"] != st["len1"]:
+                return "leniency-of-a-command-changed-by-the-history"
+            for a, exp in zip(reused, st["expected_tags"]):
+                if a[3] is not None and a[7] not in exp:
+                    return "handler-of-another-sibling-ran"
         return None
     if c["k"] == 1:
         from clikit.ui.style import TableStyle
